@@ -261,7 +261,7 @@ def wrapping(chk, repo, d):
     sw = [s for s in walk_no_nested(st) if match_stmt(
         "value = value.switch_endian(self.fmt)", s) is not None]
     calc = [c for c, b in find("$v.calculate(None, $long)", st)
-            if "fmt" in unparse(c.args[1])]
+            if sw and unparse(b["v"]) == unparse(sw[0].targets[0])]
     ok = len(sw) == 1 and len(calc) == 1 and sw[0].lineno < calc[0].lineno
     chk.ob("R07.1", E + "Memory._set", "the value is swapped before it is "
            "computed and stored", ok, st, "value.switch_endian(fmt) "
